@@ -897,7 +897,17 @@ func foldSubst(info *types.Info, e ast.Expr, subst func(ast.Expr) (constant.Valu
 		if tv, ok := info.Types[x]; ok && tv.Value != nil {
 			return tv.Value, true
 		}
+		if x == ast.Expr(kit.EmptyStringLit) {
+			return constant.MakeString(""), true
+		}
 		switch y := x.(type) {
+		case *ast.CallExpr:
+			// len(<string>)
+			if b, ok := kit.Callee(info, y).(*types.Builtin); ok && b.Name() == "len" && len(y.Args) == 1 {
+				if a, ok := ev(y.Args[0]); ok && a.Kind() == constant.String {
+					return constant.MakeInt64(int64(len(constant.StringVal(a)))), true
+				}
+			}
 		case *ast.BinaryExpr:
 			a, ok1 := ev(y.X)
 			b, ok2 := ev(y.Y)
